@@ -7,7 +7,7 @@ CONSTANTS
   Variants = {"asis", "fixed"}
   Cuts = FALSE
   Kinds = {"T2", "T1S"}
-  Sizes = {3}
+  Sizes = {1, 3}
   Pads = {1}
   Props = {0}
   CtlFroms = {2, 3, 4, 6, 11, 22}
